@@ -195,7 +195,7 @@ open Lean Elab Command in
         env = dict(ENV)
         if rustflags:
             env["RUSTFLAGS"] = rustflags
-        if not (HARNESS / "Cargo.lock").exists():
+        if not (HARNESS / "Cargo.lock").exists() and (REPO / "Cargo.lock").exists():
             shutil.copy(REPO / "Cargo.lock", HARNESS / "Cargo.lock")
         toml = (HARNESS / "Cargo.toml.in").read_text().replace("@REPO@", str(REPO))
         if not (HARNESS / "Cargo.toml").exists() or (HARNESS / "Cargo.toml").read_text() != toml:
@@ -446,7 +446,7 @@ edition = "2021"
 fpdec = {{ path = "{REPO}" }}
 [workspace]
 """)
-    shutil.copy(REPO / "Cargo.lock", crate / "Cargo.lock")
+    shutil.copy(REPO / "Cargo.lock" if (REPO / "Cargo.lock").exists() else HARNESS / "Cargo.lock", crate / "Cargo.lock")
 
     def write_prog(items):
         body = ["use fpdec::{Dec, Decimal};", "fn main() {"]
